@@ -30,7 +30,7 @@ INVARIANTS Judge
 CHECK_DEADLOCK FALSE
 """
 
-QUICK_FAMS = ["leaf", "pair", "triple", "str2", "str3", "key", "sort", "tree1", "tree2", "tree3"]
+QUICK_FAMS = ["leaf", "pair", "triple", "str2", "str3", "strinv", "key", "sort", "tree1", "tree2", "tree3"]
 THOROUGH_FAMS = QUICK_FAMS + ["str3wide", "key2", "sortwide", "tree2wide"]
 
 ASPECT_TEXT = {
